@@ -28,7 +28,7 @@ def plan(tier):
             "required_classes": ["qn-one", "qn-two", "sector:extreme", "op:add", "op:compress-truncating", "op:compress-limit-1",
                                  "op:apply-charged", "op:conj_trans-apply", "op:canonicalise-stop", "op:dmrg-1site", "op:dmrg-2site",
                                  "op:evolve", "op:evolve-imag", "op:mpdm", "operator-labels", "tree", "op:dmrg-tree",
-                                 "tree-scheme:tdvp_ps2", "tree-scheme:tdvp_vmf"],
+                                 "tree-scheme:tdvp_ps2", "tree-scheme:tdvp_vmf", "sector:zero-with-signed-labels"],
             "required_counters": {"label_checks": 2000, "sector_checks": 1500, "tree_sector_checks": 100}}
     if tier == "quick":
         base.update({"ncases": 240, "min_nontrivial": 50})
@@ -130,9 +130,16 @@ def run_case(ctx):
     rng = ctx.rng
     qm = str(rng.choice(["one", "two"], p=[0.7, 0.3]))
     ctx.cls("qn-" + qm)
-    em = evolve.hermitian_model(ctx, nsite=(2, 6), max_dim=400, min_dim=6, qn_mode=qm)
+    signed = bool(qm == "one" and rng.random() < 0.12)
+    if signed:
+        em = evolve.hermitian_model(ctx, gm_factory=lambda r: gen.signed_spin_chain(r, nsite=(3, 7)))
+    else:
+        em = evolve.hermitian_model(ctx, nsite=(2, 6), max_dim=400, min_dim=6, qn_mode=qm)
     gm, model = em.gm, em.model
     qntot, extreme = hostile_sector(rng, gm)
+    if signed and gen.zero_sector(gm) is not None and rng.random() < 0.7:
+        qntot, extreme = gen.zero_sector(gm), False
+        ctx.cls("sector:zero-with-signed-labels")
     if extreme:
         ctx.cls("sector:extreme")
     w = Watch(ctx, gm)
